@@ -388,7 +388,11 @@ class BaseShell:
     def default(self, line, raw_line=None):
         """Implements code execution."""
         line = line if line.endswith("\n") else line + "\n"
-        if not self.need_more_lines:  # this is the first line
+        if not self.need_more_lines and not self.buffer:  # this is the first line
+            # (``emptyline()`` clears ``need_more_lines`` before it sends the
+            # empty line that ends a multi-line input: the buffer still holds
+            # the earlier lines then, and the blank line must not decide
+            # whether the input "starts with a space" for ``ignorespace``)
             check = raw_line or line
             self.src_starts_with_space = bool(check) and check[0].isspace()
         src, code = self.push(line)
